@@ -48,6 +48,8 @@ REAL_VS_STUB = {
 FAULT_PROBES = {"first_command_fails": "first_command_fails", "middle_command_fails": "middle_command_fails", "last_command_fails": "last_command_fails",
                 "death_by_signal": "death_by_signal", "return_file_missing": "return_file_missing", "runner_killed_mid_command": "runner_killed_mid_command",
                 "second_job_same_jid_overlaps": "two_jobs_same_jid_overlap"}
+# a small share of the runs is repeated by fresh interpreters started with `python -O` (assert statements stripped)
+INTERP_VARIANTS = [{"flags": ["-O"], "runs": {"quick": 64, "thorough": 800}, "what": "python -O (assert statements stripped from the code under test)"}]
 PROBES = ["all_commands_succeed", "first_command_fails", "middle_command_fails", "last_command_fails", "death_by_signal", "return_file_missing",
           "all_return_files_missing", "return_file_is_input_file", "binary_input_file", "unnamed_command", "no_return_files_requested",
           "runner_killed_mid_command", "driver_second_instance_used_after_first", "driver_job_level_override", "driver_subclass_instance", "driver_created_used_dropped", "driver_class_level_envars", "two_jobs_same_jid_overlap", "driver_found_through_PATH"]
